@@ -20,6 +20,7 @@ FAIL_PATTERNS = [
     r"possible division by zero",
     r"possible bit shift underflow/overflow",
     r"loop ensures not satisfied",
+    r"decreases not satisfied",
     r"unable to prove assertion",
     r"assertion not satisfied",
     r"recommendation not met",   # only when promoted to error
@@ -27,7 +28,7 @@ FAIL_PATTERNS = [
     r"may be out of range",
     r"value may be out of range of the target type",
 ]
-UNDECIDED_PATTERNS = [r"rlimit", r"Resource limit", r"could not prove termination", r"decreases not satisfied", r"timed? ?out"]
+UNDECIDED_PATTERNS = [r"rlimit", r"Resource limit", r"could not prove termination", r"timed? ?out"]
 
 VERUS_FORBIDDEN = [r"\bassume\s*\(", r"\badmit\s*\(", r"#\[verifier::external\]", r"rlimit\s*\(\s*infinity"]
 
@@ -183,7 +184,7 @@ def classify(res, g, oj, diags, stderr):
         if ex.kind not in ("fn", "region", "expr"):
             continue
         for cid, kind, txt in ex.clauses:
-            if kind in ("requires", "decreases", "recommends", "returns"):
+            if kind in ("requires", "recommends", "returns"):
                 continue
             o = Obligation(cid, ex.name, kind, txt)
             obl[cid] = o
@@ -284,6 +285,23 @@ def classify(res, g, oj, diags, stderr):
             continue
         # failure located in hand-written template text (lemma / spec fn)
         line_txt = prim[0]["text"][0]["text"].strip() if prim[0] and prim[0].get("text") else ""
+        encl = None
+        if prim[0] is not None:
+            upto = g.text[:g.line_starts[min(prim[0]["line_start"], len(g.line_starts)) - 1]]
+            mm = None
+            for mm in re.finditer(r"\bproof\s+fn\s+(\w+)", upto):
+                pass
+            # the failing line belongs to the nearest preceding proof fn if no other fn starts in between
+            if mm is not None and not re.search(r"\n\s*(?:pub\s+)?(?:open\s+|closed\s+)?(?:spec\s+|exec\s+)?fn\s+\w+", upto[mm.end():]):
+                encl = mm.group(1)
+        if encl is not None:
+            oid = "lemma/" + encl
+            if any(ob.id == oid for ob in res.obligations):
+                continue
+            o = Obligation(oid, "(template)", "lemma", "proof fn %s: %s at `%s`" % (encl, msg, line_txt))
+            o.status, o.detail = "FAILED", rendered
+            res.obligations.append(o)
+            continue
         oid = "template/%s@%s" % (re.sub(r"\s+", "-", msg)[:60], re.sub(r"\s+", "_", line_txt)[:80])
         o = Obligation(oid, "(template)", "lemma", msg + " at `" + line_txt + "`")
         o.status, o.detail = "FAILED", rendered
@@ -334,6 +352,8 @@ def classify(res, g, oj, diags, stderr):
         if short.endswith("__vx_canary") or short in known_fns:
             continue
         if mode == "proof":
+            if any(ob.id in ("lemma/" + k, "lemma/" + short) for ob in res.obligations):
+                continue
             o = Obligation("lemma/" + k, "(template)", "lemma", "proof fn " + k)
             o.status = "discharged" if ok else "FAILED"
             if not ok:
